@@ -24,6 +24,9 @@ def obligations():
     o = [
         Obl("C17.forward", "py", H, "forward", [U + "lengths_and_angles_to_box_vectors"], "symbolic lengths/angles (see explanation)",
             "|a|,|b|,|c| are the lengths; b.c=|b||c|cos(alpha), c.a=..cos(beta), a.b=..cos(gamma) (each angle with ITS pair); a along x, b in the xy-plane, c_z>0; sqrt argument>=0 and divisor!=0 follow from validity", 400),
+        Obl("C17.forward.needle_5_5_5", "py", H, "forward_concrete", [U + "lengths_and_angles_to_box_vectors"], "angles 5/5/5 degrees (all below 2 pi: the 'radians?' warning branch), symbolic lengths", "same identities", 120, params={"alpha": 5.0, "beta": 5.0, "gamma": 5.0}),
+        Obl("C17.forward.needle_6_5_4", "py", H, "forward_concrete", [U + "lengths_and_angles_to_box_vectors"], "angles 6/5/4 degrees, symbolic lengths", "same identities", 120, params={"alpha": 6.0, "beta": 5.0, "gamma": 4.0}),
+        Obl("C17.forward.concrete_80_100_70", "py", H, "forward_concrete", [U + "lengths_and_angles_to_box_vectors"], "angles 80/100/70, symbolic lengths", "same identities", 120, params={"alpha": 80.0, "beta": 100.0, "gamma": 70.0}),
         Obl("C17.volume", "py", H, "volume", [TJ + "unitcell_volumes", TJ + "unitcell_vectors (getter)", U + "lengths_and_angles_to_box_vectors"], "2 frames with independent cells",
             "per frame: volume^2 = (abc)^2 * Gram, volume > 0, row k of unitcell_vectors has length k", 400),
         Obl("C17.zero_vectors", "py", H, "zero_vectors_mean_no_cell", [TJ + "unitcell_vectors (setter)"], "arbitrary 3x3 symbolic vectors",
